@@ -661,16 +661,129 @@ def monomial(e: ast.AST, atom) -> Optional[dict]:
     return None
 
 
+def inline_locals(fn: ast.FunctionDef) -> ast.FunctionDef:
+    """A copy of `fn` in which every local that is bound exactly once, to an expression over stable names, is replaced at its uses by that
+    expression (`a = x.f; b = y.f; return a / b` reads `return x.f / y.f`). Rules that recognise shapes are applied to this copy, so that
+    naming an intermediate value - the most common harmless refactor - does not change a verdict. The assignments themselves are kept."""
+    import copy
+    fn = copy.deepcopy(fn)
+    params = {a.arg for a in fn.args.posonlyargs + fn.args.args + fn.args.kwonlyargs} | ({fn.args.vararg.arg} if fn.args.vararg else set()) | \
+        ({fn.args.kwarg.arg} if fn.args.kwarg else set())
+    stores: dict = {}
+    defs: dict = {}
+    in_loop = {id(y) for x in ast.walk(fn) if isinstance(x, (ast.For, ast.While, ast.AsyncFor)) for y in ast.walk(x)}
+    store_lines: dict = {}
+
+    def note(name: str, value, stmt):
+        stores[name] = stores.get(name, 0) + 1
+        defs[name] = (value, stmt)
+        store_lines.setdefault(name, []).append((getattr(stmt, "lineno", 0), id(stmt) in in_loop))
+
+    nested = [x for x in ast.walk(fn) if isinstance(x, (ast.FunctionDef, ast.AsyncFunctionDef, ast.Lambda, ast.ClassDef)) and x is not fn]
+    inside_nested = {id(y) for x in nested for y in ast.walk(x)}
+    for st in ast.walk(fn):
+        if id(st) in inside_nested:
+            continue
+        if isinstance(st, ast.Assign) and len(st.targets) == 1:
+            t = st.targets[0]
+            if isinstance(t, ast.Name):
+                note(t.id, st.value, st)
+            elif isinstance(t, (ast.Tuple, ast.List)) and isinstance(st.value, (ast.Tuple, ast.List)) and len(t.elts) == len(st.value.elts) \
+                    and all(isinstance(e, ast.Name) for e in t.elts):
+                for e, v in zip(t.elts, st.value.elts):
+                    note(e.id, v, st)
+            else:
+                for x in ast.walk(t):
+                    if isinstance(x, ast.Name):
+                        note(x.id, None, st)
+        elif isinstance(st, (ast.AugAssign, ast.AnnAssign)):
+            for x in ast.walk(st.target):
+                if isinstance(x, ast.Name):
+                    note(x.id, None if isinstance(st, ast.AugAssign) or st.value is None else st.value, st)
+                    if isinstance(st, ast.AugAssign):
+                        stores[x.id] += 1
+        elif isinstance(st, (ast.For, ast.AsyncFor, ast.comprehension)):
+            for x in ast.walk(st.target):
+                if isinstance(x, ast.Name):
+                    note(x.id, None, st)
+                    stores[x.id] += 1
+        elif isinstance(st, (ast.With, ast.AsyncWith)):
+            for it in st.items:
+                if it.optional_vars is not None:
+                    for x in ast.walk(it.optional_vars):
+                        if isinstance(x, ast.Name):
+                            note(x.id, None, st)
+                            stores[x.id] += 1
+        elif isinstance(st, ast.ExceptHandler) and st.name:
+            note(st.name, None, st)
+            stores[st.name] += 1
+        elif isinstance(st, ast.NamedExpr) and isinstance(st.target, ast.Name):
+            note(st.target.id, None, st)
+            stores[st.target.id] += 1
+    stable = {n for n in params if n not in stores}
+
+    def ok(name: str, seen: frozenset) -> bool:
+        if name in seen or name in params:
+            return False
+        if stores.get(name) != 1 or defs[name][0] is None or id(defs[name][1]) in in_loop:
+            return False
+        v = defs[name][0]
+        if any(isinstance(x, (ast.Yield, ast.YieldFrom, ast.Await, ast.NamedExpr, ast.Lambda, ast.ListComp, ast.GeneratorExp, ast.DictComp, ast.SetComp)) for x in ast.walk(v)):
+            return False
+        dline = getattr(defs[name][1], "lineno", 0)
+        for x in ast.walk(v):
+            if isinstance(x, ast.Name) and isinstance(x.ctx, ast.Load) and x.id in store_lines:
+                # every (re)binding of a name the expression reads lies before the definition, outside loops: its value cannot change afterwards
+                if not all(ln < dline and not lp for ln, lp in store_lines[x.id]):
+                    return False
+        return True
+
+    inlinable = {n for n in stores if ok(n, frozenset())}
+
+    class Sub(ast.NodeTransformer):
+
+        def __init__(self):
+            self.depth = 0
+
+        def visit_Name(self, node):
+            if isinstance(node.ctx, ast.Load) and node.id in inlinable and self.depth < 6:
+                v, st = defs[node.id]
+                if getattr(node, "lineno", 0) > getattr(st, "lineno", 0) or (getattr(node, "lineno", 0) == getattr(st, "lineno", 0) and False):
+                    self.depth += 1
+                    new = self.visit(copy.deepcopy(v))
+                    self.depth -= 1
+                    return new
+            return node
+
+        def visit_FunctionDef(self, node):
+            if node is fn:
+                self.generic_visit(node)
+            return node
+
+        def visit_Lambda(self, node):
+            return node
+
+        def visit_Assign(self, node):
+            node.value = self.visit(node.value)
+            return node
+
+    Sub().visit(fn)
+    ast.fix_missing_locations(fn)
+    return fn
+
+
 class Fn:
     """A function of the repository prepared for path/dataflow rules."""
 
-    def __init__(self, world, modname: str, path: str):
+    def __init__(self, world, modname: str, path: str, inline: bool = False):
         from .core import AnalysisError
         self.world = world
         self.mod = world.src.need(modname)
         fn = find_function(self.mod.tree, path)
         if fn is None or not isinstance(fn, (ast.FunctionDef, ast.AsyncFunctionDef)):
             raise AnalysisError(f"anchor function {modname}:{path} not found")
+        if inline:
+            fn = inline_locals(fn)
         self.fn = fn
         self.path = path
         self.cfg = CFG(fn)
